@@ -131,8 +131,6 @@ OutcomeOK(outcome) ==
     \/ outcome = doomed /\ doomed # "none"
     \/ outcome = "ok" /\ doomed = "none"
     \/ outcome = "MaximumSearch" /\ doomed = "none" /\ lim.search # NoLimit
-    \* the hook reads the clock just before the interpreter does: the deadline may pass in between
-    \/ outcome = "Timeout" /\ doomed = "none" /\ lim.time # NoLimit
 
 CountersMatch(total, c) ==
     /\ total = acct
@@ -254,12 +252,16 @@ Inc(c, limit) ==
     /\ grant' = Settle(grant)
     /\ UNCHANGED <<phase, lim, perm, acct, live, frames, idleBase>>
 
+\* The hook reads the clock just before the interpreter does, so `passed = FALSE` does not exclude
+\* that the interpreter's own reading (a moment later) finds the deadline passed: with a deadline
+\* configured both continuations are admitted, and the rest of the trace decides.
 TimeChk(hasDeadline, passed) ==
     /\ Active
     /\ acts # <<>> /\ TopAct.st \in {"time", "ttime"}
     /\ hasDeadline = (lim.time # NoLimit)
     /\ (passed => hasDeadline)
-    /\ IF passed
+    /\ \E late \in (IF hasDeadline /\ ~passed THEN {TRUE, FALSE} ELSE {FALSE}) :
+       IF passed \/ late
          THEN /\ Doom("Timeout")
               /\ acts' = IF TopAct.st = "time" THEN Pop(acts) ELSE SetTop([TopAct EXCEPT !.st = "dead"])
          ELSE UNCHANGED doomed /\ acts' = SetTop([TopAct EXCEPT !.st = IF TopAct.st = "time" THEN "frame" ELSE "tail"])
